@@ -70,16 +70,17 @@ FLOORS = {
     "quick": {"distinct_nontrivial": 60,
               "mon": {"newFromDirectory_calls": 2000, "changeBasis_judged": 1500,
                       "interpolate_calls": 800, "exact_loads": 150,
-                      "action_pairs": 4000, "independence_pairs": 1000,
-                      "fault_loads": 500, "snapshot_compares": 500},
+                      "action_pairs": 4000, "independence_pairs": 500,
+                      "fault_loads": 800, "snapshot_compares": 800},
               "cls": {"P1": 10, "P2": 10, "P3": 10,
                       "fault:missing-file": 8, "fault:oversized-target": 8,
                       "fault:file-mismatch": 6, "fault:missing-content": 6,
+                      "fault:all-511-subsets": 1,
                       "interp:P1": 10, "interp:P2": 10, "interp:P3": 10}},
     "thorough": {"distinct_nontrivial": 600,
                  "mon": {"newFromDirectory_calls": 30000, "changeBasis_judged": 20000,
                          "interpolate_calls": 10000, "exact_loads": 2000,
-                         "action_pairs": 60000, "independence_pairs": 15000,
+                         "action_pairs": 60000, "independence_pairs": 10000,
                          "fault_loads": 8000, "snapshot_compares": 8000},
                  "cls": {"P1": 100, "P2": 100, "P3": 100,
                          "fault:missing-file": 80, "fault:oversized-target": 80,
@@ -497,6 +498,14 @@ def _grid_cfg(rng, plain=False):
 def generate(tier, seed):
     rng = np.random.default_rng(14000 + seed)
     cases = []
+    # every one of the 511 subsets of missing files for three particles (longest cases,
+    # scheduled first)
+    for i in range(1 if tier == "quick" else 6):
+        cases.append({"kind": "fault", "P": 3, "N": 5, "req": BASES[(i + seed) % 2], "NsA": 5,
+                      "NsC": 7 if i % 3 == 0 else 5, "NsB": 5, "basisA": BASES[i % 2],
+                      "basisB": BASES[(i // 2 + seed) % 2], "basisC": BASES[(i + 1) % 2],
+                      "grid": _grid_cfg(rng, plain=True), "missing": "all",
+                      "allpos": False, "s": int(rng.integers(1 << 30))})
     reps = 1 if tier == "quick" else 12
     for rep in range(reps):
         for U, Ns, stored in itertools.product((1, 2, 3), STORED_N, BASES):
@@ -523,13 +532,6 @@ def generate(tier, seed):
                               "grid": _grid_cfg(rng, plain=True),
                               "missing": "sample", "allpos": tier == "thorough",
                               "s": int(rng.integers(1 << 30))})
-    # every one of the 511 subsets of missing files for three particles
-    for i in range(0 if tier == "quick" else 6):
-        cases.append({"kind": "fault", "P": 3, "N": 5, "req": BASES[i % 2], "NsA": 5,
-                      "NsC": 7 if i % 3 == 0 else 5, "NsB": 5, "basisA": BASES[i % 2],
-                      "basisB": BASES[(i // 2) % 2], "basisC": BASES[(i + 1) % 2],
-                      "grid": _grid_cfg(rng, plain=True), "missing": "all",
-                      "allpos": False, "s": int(rng.integers(1 << 30))})
     for i, c in enumerate(cases):
         c["i"] = i
     return cases
@@ -647,11 +649,15 @@ def _case_load(case):
         solver = BoltzmannSolver(grid, "Cardinal", stored)
         solver.updateParticleList(make_particles(names, tuple(range(U))))
         HOOKS.begin()
+        arr = None
         try:
             solver.loadCollisions(pathlib.Path(spec.path))
             arr = copy.deepcopy(solver.collisionArray)
+        except Exception as e:  # noqa: BLE001 - same load as above, already reported there
+            _not_watchdog(e)
+        try:
             other = BASES[1 - BASES.index(stored)]
-            for b in (other, other, stored, other, stored):
+            for b in (other, other, stored, other, stored) if arr is not None else ():
                 arr.changeBasis(b)
         except Exception as e:  # noqa: BLE001
             _not_watchdog(e)
